@@ -54,7 +54,9 @@ func gen(rt *rapid.T) prog {
 		total += len(seq)
 		p.Seqs = append(p.Seqs, seq)
 	}
-	p.Schedule = rapid.SliceOfN(rapid.IntRange(0, s-1), total, total*2).Draw(rt, "schedule")
+	// -1 in the schedule: the handler batch's time-out expires at that moment (its
+	// token reaches the operator's loop whenever the loop picks it)
+	p.Schedule = rapid.SliceOfN(rapid.OneOf(rapid.IntRange(0, s-1), rapid.IntRange(0, s-1), rapid.IntRange(0, s-1), rapid.Just(-1)), total, total*2).Draw(rt, "schedule")
 	return p
 }
 
@@ -90,8 +92,8 @@ func exec(p prog, c *hx.Case) error {
 	// per-sender bookkeeping; event ids are global and unique
 	st := make([]*senderState, nS)
 	evID := 0
-	owner := map[int]int{}   // event id -> sender
-	before := map[int]int{}  // event id -> number of that sender's barriers before it
+	owner := map[int]int{}  // event id -> sender
+	before := map[int]int{} // event id -> number of that sender's barriers before it
 	wmBefore := make([]map[int]int64, nS)
 	for i, seq := range p.Seqs {
 		s := &senderState{id: ids[i], seq: seq, goCh: make(chan struct{}), doneCh: make(chan error, 1)}
@@ -234,9 +236,16 @@ func exec(p prog, c *hx.Case) error {
 		}
 		return nil
 	}
+	timeouts := 0
 	for _, pick := range p.Schedule {
 		if err := drainDone(); err != nil {
 			return err
+		}
+		if pick < 0 {
+			if op.Timer.FireAsync() {
+				timeouts++
+			}
+			continue
 		}
 		s := st[pick%nS]
 		if s.inCall || s.next >= len(s.seq) {
@@ -334,6 +343,7 @@ func exec(p prog, c *hx.Case) error {
 		}
 	}
 	c.LabelIf(parkedEver > 0, "sender-parked")
+	c.LabelIf(timeouts > 0, "batch-time-out-expired-during-the-schedule")
 	c.LabelIf(behindBarrier > 0, "event-queued-behind-barrier")
 	if nS >= 2 && parkedEver > 0 && behindBarrier > 0 && want >= 2 {
 		c.NonTrivial()
